@@ -79,7 +79,7 @@ inline Problem make_problem(Rng& rng, int nr, int nt, bool allow_culham = false)
 {
     Problem p;
     p.R0   = rng.pick(std::vector<double>{1e-8, 1e-5, 1e-2, 0.1, 0.3});
-    p.Rmax = 1.3;
+    p.Rmax = rng.pick(std::vector<double>{1.3, 1.3, 1.0, 2.0});
     p.geo  = make_geometry(rng, p.Rmax, p.geo_name, allow_culham);
     p.coef = make_coefficients(rng, p.Rmax, p.coef_name);
     make_grid_arrays(rng, nr, nt, p.R0, p.Rmax, p.radii, p.angles);
